@@ -168,7 +168,10 @@ def check_C01(ctx, unit):
                 if not (a2.kind == "DeclRefExpr" and a2.d["d"] in idxp):
                     problems.append("frame index argument is %s, not the index parameter" % _strip_ids(canon(a2)))
             if ov is not None:
-                if ov not in inits or inits[ov].strip().cv() != 0:
+                zero_init = (ov in inits and inits[ov].strip().cv() == 0) or any(
+                    x.kind == "BinaryOperator" and x.op == "=" and std_unwrap(x.children[0]).kind == "DeclRefExpr"
+                    and std_unwrap(x.children[0]).d["d"] == ov and x.children[1].strip().cv() == 0 for x in f.events())
+                if not zero_init or (ov in inits and inits[ov].strip().cv() not in (0, None)):
                     problems.append("overhead does not start at 0 (it must stay a multiple of the item size)")
                 for x in f.all_nodes():
                     if x.kind in ("CompoundAssignOperator", "BinaryOperator", "UnaryOperator") and x.get("op") in ("+=", "-=", "=", "++", "--", "*="):
@@ -177,6 +180,8 @@ def check_C01(ctx, unit):
                             r = std_unwrap(x.children[1]) if len(x.children) > 1 else None
                             if x.op == "+=" and r is not None and r.kind == "DeclRefExpr":
                                 item = r.d["d"] if item in (None, r.d["d"]) else item
+                            elif x.op == "=" and r is not None and r.cv() == 0:
+                                pass        # (re)initialisation to zero
                             else:
                                 problems.append("overhead modified by %s at %s" % (_strip_ids(canon(x)), x.loc))
                 hdr_loop = False
@@ -206,12 +211,10 @@ def check_C01(ctx, unit):
             from .rules_own import for_loops
             okc = False
             for lp in for_loops(f):
-                inc = lp.node.child("inc")
-                if all(lp.contains(n) for n in fl) and inc is not None and lp.ivar is not None:
-                    inc_ = inc.strip()
-                    step_ok = inc_.kind == "CompoundAssignOperator" and inc_.op == "+=" and std_unwrap(inc_.children[0]).kind == "DeclRefExpr" \
-                        and std_unwrap(inc_.children[0]).d["d"] == lp.ivar and std_unwrap(inc_.children[1]).kind == "DeclRefExpr" \
-                        and std_unwrap(inc_.children[1]).d["d"] == item
+                st = lp.step_of()
+                if all(lp.contains(n) for n in fl) and lp.ivar is not None:
+                    step_ok = st is not None and st[0] == "+=" and std_unwrap(st[1]).kind == "DeclRefExpr" \
+                        and std_unwrap(st[1]).d["d"] == item
                     bp = path(lp.bound) if lp.bound is not None else None
                     bound_ok = bool(bp) and bp[-1] == "length" and slbv is not None and bp[0].endswith("#%d" % slbv) and lp.op == "<"
                     wh = std_unwrap(f.node(fl[0].get("pargs")[0]))
@@ -241,13 +244,31 @@ def check_C01(ctx, unit):
                 v = std_unwrap(r.child("val"))
                 if v.kind == "DeclRefExpr" and v.get("local") and "freelist" in (v.get("t") or ""):
                     kinds.add("small")
-                    # every assignment to object is slb->available
-                    for x in f.all_nodes():
-                        if x.kind == "BinaryOperator" and x.op == "=" and std_unwrap(x.children[0]).kind == "DeclRefExpr" \
-                                and std_unwrap(x.children[0]).d["d"] == v.d["d"]:
-                            p = path(x.children[1])
-                            if not (p and p[-1] == "available"):
-                                problems.append("object assigned from %s at %s" % (canon(x.children[1]), x.loc))
+                    # every value that can reach the returned variable is a read of <frame>->available
+                    inits_ = RA.local_inits(f)
+                    todo, seen = [v.d["d"]], set()
+                    while todo:
+                        dd = todo.pop()
+                        if dd in seen:
+                            continue
+                        seen.add(dd)
+                        srcs = []
+                        if dd in inits_:
+                            srcs.append(inits_[dd])
+                        for x in f.all_nodes():
+                            if x.kind == "BinaryOperator" and x.op == "=":
+                                l = x.children[0].strip()
+                                if l.kind == "DeclRefExpr" and l.d["d"] == dd:
+                                    srcs.append(x.children[1])
+                        for sv in srcs:
+                            u_ = std_unwrap(sv)
+                            p = path(u_)
+                            if p and p[-1] == "available":
+                                continue
+                            if u_.kind == "DeclRefExpr" and u_.get("local"):
+                                todo.append(u_.d["d"])
+                                continue
+                            problems.append("the returned block can come from %s at %s" % (_strip_ids(canon(u_)), sv.loc))
                 elif path(v) and path(v)[-1] == "address":
                     kinds.add("large")
                 else:
@@ -489,19 +510,24 @@ def check_C02(ctx, unit):
             ctx.inst("E.reuse-before-map", "%s::allocate%s" % (POOL, tag), ok and okr, f.loc,
                      "_construct_slab only when the bucket has no head slab: %s; a slab that became full leaves the partial tree "
                      "and the head is recomputed: %s" % (ok, okr), f)
-        # head repair: both sites (allocate after attaching a fresh slab, free after re-inserting a full one)
-        # install the slab as head when there is no head or it lies lower — one condition, true for "no head"
-        conds = {}
+        # head repair: at both sites (allocate after attaching a fresh slab, free after re-inserting a full one) the
+        # slab becomes head exactly when there is no head or it lies at a lower address. Decided semantically: the
+        # guard is evaluated under every small valuation of (head present?, slab address, head address).
+        n_sites = 0
         for name in ("allocate", "free_in_slab_"):
             for f in bn.get(name, []):
                 k = 0
                 for n in sorted(f.events(), key=lambda n: _lockey(n.loc)):
                     w = write_of(n)
-                    if not (w and w[0] and w[0][-1] == "head_slb" and w[1] is not None and _strip_ids(canon(w[1])) == "slb"):
+                    if not (w and w[0] and w[0][-1] == "head_slb" and w[1] is not None):
                         continue
+                    sv = std_unwrap(w[1])
+                    sp = path(sv)
+                    if not (sp and len(sp) == 1):
+                        continue          # head_slb = partial_tree.first() etc.
                     k += 1
-                    # the innermost if whose then-arm contains the write
-                    node, guard = n, None
+                    n_sites += 1
+                    guard = None
                     pm = f.parent_map()
                     cur = n.id
                     while cur in pm:
@@ -510,28 +536,44 @@ def check_C02(ctx, unit):
                         if x.kind == "IfStmt" and x.child("then") is not None and any(y.id == n.id for y in x.child("then").walk()):
                             guard = x.child("cond")
                             break
+                    ok, why = True, ""
                     if guard is None:
-                        conds[(name, k)] = ("<unconditional>", None, n, f)
-                        continue
-                    txt = re.sub(r"\bbkt\b", "$b", _strip_ids(canon(guard)))
-
-                    def lookup(a):
-                        p = path(a)
-                        if p and p[-1] == "head_slb":
-                            return False          # no head slab
-                        return None
-                    conds[(name, k)] = (txt, flow.eval_bool(guard, lookup), n, f)
-        texts = {v[0] for v in conds.values()}
-        for (name, k), (txt, when_nohead, n, f) in sorted(conds.items()):
-            ok = len(texts) == 1 and when_nohead is True
-            ctx.inst("E.reuse-before-map", "%s::%s: head repair #%d%s" % (POOL, name, k, tag), ok, n.loc,
-                     "installs the slab as head under %s; with no head slab the condition is %s; all sites agree: %s" % (
-                         txt, when_nohead, len(texts) == 1), f)
-        if len(conds) < 2:
-            raise AnalysisBroken("anchor vanished: head-slab repair sites (found %d)" % len(conds))
+                        ok, why = False, "the head is overwritten unconditionally"
+                    else:
+                        for present in (0, 1):
+                            for s_ in (0, 1, 2):
+                                for h_ in (0, 1, 2):
+                                    def val(leaf, present=present, s_=s_, h_=h_):
+                                        p = path(leaf)
+                                        if not p:
+                                            return None
+                                        if p[-1] == "head_slb":
+                                            return present
+                                        if p[-1] == "address" and len(p) >= 2 and p[-2] == "head_slb":
+                                            return h_ if present else None
+                                        if p[-1] == "address" and p[0] == sp[0]:
+                                            return s_
+                                        return None
+                                    got = flow.sem_eval(guard, val)
+                                    want = 1 if not present else int(s_ < h_)
+                                    if got is None or bool(got) != bool(want):
+                                        ok = False
+                                        why = "guard %s is %s for (head %s, slab address %d, head address %d), expected %s" % (
+                                            _strip_ids(canon(guard)), got, "present" if present else "absent", s_, h_, bool(want))
+                    ctx.inst("E.reuse-before-map", "%s::%s: head repair #%d%s" % (POOL, name, k, tag), ok, n.loc,
+                             why or "slab installed as head iff there is no head or its address is lower (all 18 valuations)", f)
+        if n_sites < 2:
+            raise AnalysisBroken("anchor vanished: head-slab repair sites (found %d)" % n_sites)
         for f in bn.get("free_in_slab_", []):
             inits = RA.local_inits(f)
-            flagd = [d for d, i in inits.items() if _strip_ids(canon(i)) == "(! slb.available)"]
+            def _is_full_test(i):
+                def mk(v):
+                    def val(leaf):
+                        p = path(leaf)
+                        return v if (p and p[-1] == "available") else None
+                    return val
+                return flow.sem_eval(i, mk(0)) == 1 and flow.sem_eval(i, mk(1)) == 0
+            flagd = [d for d, i in inits.items() if _is_full_test(i)]
             push = [n for n in f.events() if write_of(n) and write_of(n)[0] and write_of(n)[0][-1] == "available" and n.kind == "BinaryOperator"]
             problems = []
             if not flagd:
@@ -544,8 +586,10 @@ def check_C02(ctx, unit):
                 g = False
                 for i_ in ins:
                     for cond, truth in flow.facts_at(f, i_.id):
-                        c = cond.strip()
-                        if c.kind == "DeclRefExpr" and c.d["d"] == flagd[0] and truth:
+                        c, tt = cond.strip(), truth
+                        while c.kind == "UnaryOperator" and c.op == "!":
+                            c, tt = c.children[0].strip(), not tt
+                        if c.kind == "DeclRefExpr" and c.d["d"] == flagd[0] and tt:
                             hw = [w for w in f.events() if write_of(w) and write_of(w)[0] and write_of(w)[0][-1] == "head_slb" and f.reaches(i_.id, w.id)]
                             g = bool(hw)
                 if not g:
